@@ -31,6 +31,9 @@ type RigOpts struct {
 	WithErrors    bool
 	Reverse       bool
 	NoProxy       bool
+	// DetachCtx: the server sits behind a middleware that replaces the request context with one that is not cancelled
+	// when the connection goes away (applications do this to tie hijacked connections to their own shutdown instead)
+	DetachCtx bool
 }
 
 type DialCtl struct {
@@ -190,7 +193,13 @@ func NewRig(o RigOpts) (*Rig, error) {
 	}
 	r.RPC = jsonrpc.NewServer(sopts...)
 	r.RPC.Register("Tok", r.API)
-	r.Srv = httptest.NewUnstartedServer(r.RPC)
+	var h http.Handler = r.RPC
+	if o.DetachCtx {
+		h = http.HandlerFunc(func(w http.ResponseWriter, req *http.Request) {
+			r.RPC.ServeHTTP(w, req.WithContext(context.WithoutCancel(req.Context())))
+		})
+	}
+	r.Srv = httptest.NewUnstartedServer(h)
 	var base context.Context
 	base, r.srvCancel = context.WithCancel(context.Background())
 	r.Srv.Config.BaseContext = func(net.Listener) context.Context { return base }
